@@ -56,6 +56,13 @@ def scool_body(env, p):
             env.check(and_(*[and_(vals(tab["bin1_id"])[q] == b1[q], vals(tab["bin2_id"])[q] == b2[q], vals(tab["count"])[q] == v[q]) for q in range(len(b1))]),
                       f"cell {nm} does not read back as the pixel table supplied for it (mix-up between cells?)")
         obs[nm] = [vals(tab["bin1_id"]), vals(tab["bin2_id"]), vals(tab["count"])]
+        if not p.get("float_counts"):
+            # each cell is a schema-valid collection (C02 for the single-cell producer)
+            if env.symbolic:
+                for cond, msg in validity_sym(path, "/cells/" + nm):
+                    env.check(cond, f"cell {nm}: " + msg)
+            else:
+                validity_real(path, "/cells/" + nm)
         bt = c.bins()[:]
         env.check(and_(*[a == b for a, b in zip(vals(bt["start"]), bins0["start"].tolist())], *[a == b for a, b in zip(vals(bt["end"]), bins0["end"].tolist())]),
                   "cell does not read over the common bin table")
